@@ -115,6 +115,10 @@ func ValidateResponse(ctx context.Context, input *ResponseValidationInput) error
 
 	// Read response's body.
 	body := input.Body
+	if body == nil {
+		// a response without a body (http.Response.Body may be nil on the caller's side)
+		body = http.NoBody
+	}
 
 	// Response would contain partial or empty input body
 	// after we begin reading.
